@@ -30,3 +30,24 @@ package local
 //@   modifies setstatecalls, stateremoved
 //@   ensures [removed_everywhere] forall k ref, k2 ref :: {smhas(&s.clusters, k), smhas(&unbox(smget(&s.clusters, k), "*upstreamCondition").flowControls, k2)} smhas(&s.clusters, k) && smhas(&unbox(smget(&s.clusters, k), "*upstreamCondition").flowControls, k2) ==> (instance in stateremoved[smget(&unbox(smget(&s.clusters, k), "*upstreamCondition").flowControls, k2)])
 //@   ensures [only_this_instance] onlyThisInstance
+
+//@ func (*upstreamCondition).syncLocalFlowControls$1 props C16
+//@   modifies c.currentFlowControlSpec
+
+//@ func (*upstreamCondition).syncLocalFlowControls$2 props C16
+//@   iterator-body goset
+//@   modifies smap(&c.flowControls)
+//@   ensures [ret] result
+
+//@ func (*upstreamCondition).loadFlowControls props C16
+//@   trusted "sync.Map lookup plus a type assertion to the interface every stored value was stored as"
+//@   pure
+//@   ensures result1 == smhas(&c.flowControls, box(name)) && (result1 ==> result == smget(&c.flowControls, box(name))) && (!result1 ==> result == nil)
+
+//@ func (*upstreamCondition).syncLocalFlowControls props C16
+//@   requires [recv] c != nil
+//@   requires [typed] forall k ref :: {smhas(&c.flowControls, k)} smhas(&c.flowControls, k) ==> smget(&c.flowControls, k) != nil
+//@   panics-never
+//@   modifies *
+//@   loop 0: invariant [t] true
+//@   loop 1: invariant [typed] forall k ref :: {smhas(&c.flowControls, k)} smhas(&c.flowControls, k) ==> smget(&c.flowControls, k) != nil
